@@ -8,17 +8,17 @@ Import ListNotations.
    — hence at every seam —, len, iteration, get_flight, with any evictions in between; add / sync are
    refused) the answers are those of ONE store holding the inputs' lists concatenated in the order given *)
 Theorem C09_merged_is_concat :
-  forall fs0 outp ins fs',
+  forall fs0 outp ins fs' cp,
     inputs_wf fs0 ins ->
     merge_run fixed_cfg fs0 outp ins None = (fs', OUnit) ->
     let parts := map (input_file fs0) ins in
     exists h d,
-      step fixed_cfg (mkW fs' None) (OpenR outp) = (mkW fs' (Some h), OUnit) /\
+      step fixed_cfg (mkW fs' None) (OpenR outp cp) = (mkW fs' (Some h), OUnit) /\
       flookup outp fs' = Some (NDir d) /\
       ident d = all_indexed fs0 ins /\
       forall sg ops, reads_ok parts ops ->
         map coarse (snd (run fixed_cfg (mkW fs' (Some h)) ops))
-        = snd (spec_run (concat_world outp d parts sg) ops).
+        = snd (spec_run (concat_world outp d parts sg cp) ops).
 Proof. exact merged_is_concat. Qed.
 Print Assumptions C09_merged_is_concat.
 
@@ -64,7 +64,7 @@ Print Assumptions C09_merge_refuses_mismatch.
    replaces the first; the merged store reports length 6 and yields [2;3;4;2;3;4]; items 0 and 1 are gone *)
 Theorem C09_merge_same_name_before_fix_refuted :
   snd (merge_run cfg_C09a fs_dup OUT [P0; Q0] None) = OUnit /\
-  snd (run cfg_C09a (mkW (fst (merge_run cfg_C09a fs_dup OUT [P0; Q0] None)) None) [OpenR OUT; Len; Iter []])
+  snd (run cfg_C09a (mkW (fst (merge_run cfg_C09a fs_dup OUT [P0; Q0] None)) None) [OpenR OUT None; Len; Iter []])
   = [OUnit; OLen 6; OItems [2; 3; 4; 2; 3; 4]%Z None] /\
   merge_run fixed_cfg fs_dup OUT [P0; Q0] None = (fs_dup, OErr EDupNames).
 Proof. exact merge_same_name_loses_data_refuted. Qed.
@@ -73,6 +73,6 @@ Print Assumptions C09_merge_same_name_before_fix_refuted.
 Example C09_nonvacuous :
   snd (merge_run fixed_cfg fs_three OUT [P0; P1] None) = OUnit /\
   snd (run fixed_cfg (mkW (fst (merge_run fixed_cfg fs_three OUT [P0; P1] None)) None)
-           [OpenR OUT; Len; Get 0; Get 1; Get 2; Get 3; GetFlight 50; GetFlight 30; GetFlight 7; Iter []])
+           [OpenR OUT None; Len; Get 0; Get 1; Get 2; Get 3; GetFlight 50; GetFlight 30; GetFlight 7; Iter []])
   = [OUnit; OLen 3; OItem 0; OItem 1; OItem 2; OErr EIndex; OItem 2; OItem 0; ONone; OItems [0; 1; 2]%Z None].
 Proof. exact merge_demo. Qed.
